@@ -525,6 +525,12 @@ func (m *Model) audit(w *World, step int, op *Op, newly bool, callErr error, bef
 	}
 	m.highView = hv
 	if f := m.markerChain(w, step, after); f != nil {
+		// the audit runs after every call and a history ends at its first finding, so the call
+		// that left the stale marker is this one: an explicit rollback resets the markers on
+		// the unchanged tree, so a stale marker after a rollback is NOT the recorded finding
+		if rollback && strings.HasSuffix(f.Sig, "|stale-marker-kept-when-highqc-has-too-few-ancestors-in-the-tree") {
+			f.Sig = "qctree|markers-not-successive-ancestors|stale-marker-kept-by-explicit-rollback"
+		}
 		return f
 	}
 	// ---- explicit rollback
